@@ -18,13 +18,23 @@ package main
 //	  google.protobuf.Duration length = 9;
 //	  repeated double raw = 10;
 //	  repeated Change changes = 11;
-//	  message Change { google.protobuf.Timestamp change_time = 1; repeated google.protobuf.Timestamp times = 2; string name = 3; }
+//	  repeated LevelChange level_changes = 12;
+//	  ChangeLog log = 13;
+//	  message Change { google.protobuf.Timestamp change_time = 1; repeated google.protobuf.Timestamp times = 2; string name = 3;
+//	                   google.protobuf.Timestamp last_change_time = 4; Stamp stamp = 5;
+//	                   message Stamp { google.protobuf.Timestamp change_time = 1; int64 change_time_ms = 2; } }
 //	}
+//	message LevelChange { string name = 1; google.protobuf.Timestamp change_time = 2; }   // name ENDS in Change
+//	message ChangeLog { google.protobuf.Timestamp change_time = 1; repeated Change entries = 2; }  // name STARTS with Change
+//	message Change { google.protobuf.Timestamp change_time = 1; int64 change_time_ms = 2; google.protobuf.Timestamp xchange_time = 3; } // top level
 //
-// pkg/cmp's time comparers read a Timestamp / Duration through its generated Go type
-// (x.Interface().(*timestamppb.Timestamp)), so the well-known children of a dynamic message are kept as
-// values of their generated types: newChild creates them that way and concretize restores that after
-// an Unmarshal (which creates dynamic children).
+// Two Go representations. The messages the oracles, the encoders and the mutators work on keep their
+// well-known children as values of the generated types (newChild creates them that way, concretize
+// restores that after an Unmarshal). The REAL comparers are, in a share of the cases (the DynX / DynY flags
+// of a case, recorded for the replay), handed dynamicCopy of a side instead: the same descriptor and wire
+// content as a dynamicpb value whose children - Timestamps and Durations included - are dynamicpb values
+// too, which is what any dynamicpb message looks like after Unmarshal or proto.Clone. Until /repo c524dfe
+// pkg/cmp's time comparers type-asserted *timestamppb.Timestamp / *durationpb.Duration and panicked there.
 
 import (
 	"google.golang.org/protobuf/proto"
@@ -87,6 +97,8 @@ func buildDynTimes() pref.MessageType {
 				msgField("length", 9, opt, du),
 				scalar("raw", 10, rep, descriptorpb.FieldDescriptorProto_TYPE_DOUBLE),
 				msgField("changes", 11, rep, ".verif.c16.Times.Change"),
+				msgField("level_changes", 12, rep, ".verif.c16.LevelChange"),
+				msgField("log", 13, opt, ".verif.c16.ChangeLog"),
 			},
 			NestedType: []*descriptorpb.DescriptorProto{
 				entry("NamedEntry", descriptorpb.FieldDescriptorProto_TYPE_STRING, ts),
@@ -97,8 +109,36 @@ func buildDynTimes() pref.MessageType {
 						msgField("change_time", 1, opt, ts),
 						msgField("times", 2, rep, ts),
 						scalar("name", 3, opt, descriptorpb.FieldDescriptorProto_TYPE_STRING),
+						msgField("last_change_time", 4, opt, ts),
+						msgField("stamp", 5, opt, ".verif.c16.Times.Change.Stamp"),
 					},
+					NestedType: []*descriptorpb.DescriptorProto{{
+						// a change_time whose containing message is NOT called Change (its parent is)
+						Name:  proto.String("Stamp"),
+						Field: []*descriptorpb.FieldDescriptorProto{msgField("change_time", 1, opt, ts), scalar("change_time_ms", 2, opt, descriptorpb.FieldDescriptorProto_TYPE_INT64)},
+					}},
 				},
+			},
+		}, {
+			// names that only END in "Change" / only START with it, each with a change_time of its own
+			Name: proto.String("LevelChange"),
+			Field: []*descriptorpb.FieldDescriptorProto{
+				scalar("name", 1, opt, descriptorpb.FieldDescriptorProto_TYPE_STRING),
+				msgField("change_time", 2, opt, ts),
+			},
+		}, {
+			Name: proto.String("ChangeLog"),
+			Field: []*descriptorpb.FieldDescriptorProto{
+				msgField("change_time", 1, opt, ts),
+				msgField("entries", 2, rep, ".verif.c16.Change"),
+			},
+		}, {
+			// a TOP-LEVEL message called Change: its change_time is left out like that of a nested one
+			Name: proto.String("Change"),
+			Field: []*descriptorpb.FieldDescriptorProto{
+				msgField("change_time", 1, opt, ts),
+				scalar("change_time_ms", 2, opt, descriptorpb.FieldDescriptorProto_TYPE_INT64),
+				msgField("xchange_time", 3, opt, ts),
 			},
 		}},
 	}, protoregistry.GlobalFiles)
@@ -113,9 +153,22 @@ func buildDynTimes() pref.MessageType {
 	if err := protoregistry.GlobalTypes.RegisterMessage(mt); err != nil {
 		panic("dyn: " + err.Error())
 	}
-	if err := protoregistry.GlobalTypes.RegisterMessage(dynamicpb.NewMessageType(md.Messages().ByName("Change"))); err != nil {
-		panic("dyn: " + err.Error())
+	var regAll func(mds pref.MessageDescriptors)
+	regAll = func(mds pref.MessageDescriptors) {
+		for i := 0; i < mds.Len(); i++ {
+			d := mds.Get(i)
+			if d.IsMapEntry() {
+				continue
+			}
+			if d != md {
+				if err := protoregistry.GlobalTypes.RegisterMessage(dynamicpb.NewMessageType(d)); err != nil {
+					panic("dyn: " + err.Error())
+				}
+			}
+			regAll(d.Messages())
+		}
 	}
+	regAll(file.Messages())
 	return mt
 }
 
@@ -159,12 +212,12 @@ func concretize(m pref.Message) {
 		if mt == nil {
 			return nil, false
 		}
-		b, err := proto.MarshalOptions{Deterministic: true}.Marshal(v.Interface())
+		b, err := proto.MarshalOptions{Deterministic: true, AllowPartial: true}.Marshal(v.Interface())
 		if err != nil {
 			panic(err)
 		}
 		n := mt.New()
-		if err := proto.Unmarshal(b, n.Interface()); err != nil {
+		if err := unmarshalPartial(b, n.Interface()); err != nil {
 			panic(err)
 		}
 		return n, true
@@ -212,10 +265,40 @@ func concretize(m pref.Message) {
 	}
 }
 
+// dynamicCopy: m (valid, of any Go type) as a dynamicpb message of the same descriptor with the same wire
+// content (unknown fields included); every message below it is a dynamicpb message as well.
+func dynamicCopy(m proto.Message) proto.Message {
+	if m == nil || !m.ProtoReflect().IsValid() {
+		return m
+	}
+	b, err := proto.MarshalOptions{Deterministic: true, AllowPartial: true}.Marshal(m)
+	if err != nil {
+		panic(err)
+	}
+	d := dynamicpb.NewMessage(m.ProtoReflect().Descriptor())
+	if err := unmarshalPartial(b, d); err != nil {
+		panic(err)
+	}
+	return d
+}
+
+func dynamicValue(fd pref.FieldDescriptor, v pref.Value) pref.Value {
+	if fd.Kind() != pref.MessageKind || !v.Message().IsValid() {
+		return v
+	}
+	return pref.ValueOfMessage(dynamicCopy(v.Message().Interface()).ProtoReflect())
+}
+
 // emptyChild: a new empty message for the singular message field fd of m.
 func emptyChild(m pref.Message, fd pref.FieldDescriptor) pref.Message {
 	if isDynamic(m) {
 		return newChild(fd.Message())
 	}
 	return m.NewField(fd).Message()
+}
+
+// unmarshalPartial: proto.Unmarshal that accepts proto2 messages lacking required fields (descriptor.proto
+// is among the swept types).
+func unmarshalPartial(b []byte, m proto.Message) error {
+	return proto.UnmarshalOptions{AllowPartial: true}.Unmarshal(b, m)
 }
